@@ -60,6 +60,37 @@ class Ctx:
             self.error(rule, 'instance census for %s is %d, below the hand-confirmed floor %d '
                              '(rule would pass vacuously)' % (what, count, minimum))
 
+    def defer_shape(self, shape_rules, scenario_rule, v_from=0, e_from=0, keep=lambda v: False):
+        """A shape rule reads one idiom; a bounded scenario clause evaluates the same behaviour on whatever the code looks
+        like.  When the scenario clause was evaluated and holds, a shape clause that is not satisfied (or not evaluable)
+        is recorded as an idiom the rule does not read - not as a violation: a behaviour-preserving rewrite must not
+        raise an alarm.  When the scenario clause fails or could not be evaluated, the shape verdicts stand."""
+        evaluated = any(r == scenario_rule and g == 'bounded' for r, _, _, g, _ in self.passes)
+        listed = set()
+        if os.path.exists(KNOWN):
+            with open(KNOWN) as fh:
+                listed = {(k['rule'], k['key']) for k in json.load(fh).get('findings', []) if k.get('property') == self.pid and k.get('status') == 'known'}
+        failed = any(v['rule'] == scenario_rule and (v['rule'], v['key']) not in listed for v in self.violations) or any(e.startswith(scenario_rule) for e in self.errors)
+        if not evaluated or failed:
+            return False
+        kept = []
+        for i, v in enumerate(self.violations):
+            if i >= v_from and v['rule'] in shape_rules and not keep(v):
+                self.passes.append((v['rule'], v['key'], 'shape clause not satisfied by the code as written (%s); the scenario clause %s holds on every enumerated case: '
+                                    'recorded as an idiom this rule does not read' % (v['what'][:140], scenario_rule), 'idiom', True))
+                self.notes.append('%s %s deferred to %s' % (v['rule'], v['key'], scenario_rule))
+            else:
+                kept.append(v)
+        self.violations[:] = kept
+        kept_e = []
+        for i, e in enumerate(self.errors):
+            if i >= e_from and any(e.startswith(r) for r in shape_rules):
+                self.passes.append((e.split(':')[0], 'not-evaluable', 'shape clause not evaluable (%s); decided by the scenario clause %s' % (e[:140], scenario_rule), 'refused', True))
+            else:
+                kept_e.append(e)
+        self.errors[:] = kept_e
+        return True
+
     def control(self, rule, fired, what):
         """planted positive control for zero-expected rules"""
         self.analysed.setdefault('positive_controls', []).append(
